@@ -812,6 +812,53 @@ def r6_10(ctx):
         ctx.ok("R6.10", where(fi), f"`{recv}.deleted` is tested with no suspension point before the APPEND is queued on the destination")
 
 
+def r6_11(ctx):
+    """Mailbox.shutdown() ends the management task and wakes whatever is still queued.  A command the task had already
+    dequeued is woken by the task's own `finally: ready.set()` the moment the task is cancelled - and then looks at
+    `mbox.deleted` to learn that it must answer NO.  So `self.deleted = True` is set before anything that can wake a command:
+    before the task is cancelled / awaited and before any other suspension point of shutdown()."""
+    p = ctx.p
+    fi = p.func("mbox.Mailbox.shutdown")
+    g = ctx.cfg(fi)
+    flag = [n.id for n in g.nodes if n.ast is not None and n.kind == "stmt" and isinstance(n.ast, ast.Assign) and any(norm(t) == "self.deleted" for t in n.ast.targets) and isinstance(n.ast.value, ast.Constant) and n.ast.value.value is True]
+    wake = [n.id for n in g.nodes if n.ast is not None and n.kind == "stmt" and any(call_name(c) == "cancel" for c in calls_in(n.ast))] + [n.id for n in g.nodes if n.awaits]
+    ctx.require(flag, "Mailbox.shutdown: `self.deleted = True` not found")
+    ctx.require(wake, "Mailbox.shutdown: cancel / await of the management task not found")
+    early = [w for w in wake if flow.escapes_without(g, g.entry, lambda n: n in flag, [w], flow.ALL) is not None]
+    ctx.paths_explored += len(wake)
+    if early:
+        ctx.bad("R6.11", fi.module, fi.qual, f"{norm(g.nodes[early[0]].ast, 60)} before self.deleted = True", "shutdown() can cancel / await the management task (or suspend) before it has marked the mailbox deleted: a command the task had already taken off the queue is woken by the task's `finally` while `deleted` is still false, runs on the dying mailbox and leaves its session selected on a mailbox nobody serves - its next command is answered by the watchdog only", g.nodes[early[0]].line)
+    else:
+        ctx.ok("R6.11", where(fi), "shutdown() marks the mailbox deleted before it cancels the management task or suspends")
+
+
+def r6_7b(ctx):
+    """get_mailbox() activates a mailbox once; everybody else who asks for it meanwhile waits on an event and then looks the
+    mailbox up in `active_mailboxes`.  The waiters are released only after the mailbox has been published there: released
+    first, a waiter finds nothing (NO "unable to activate" for a mailbox that exists) and a later caller builds a *second*
+    Mailbox object - its own queue, management task and client table - for the same folder."""
+    p = ctx.p
+    fi = p.func("user_server.IMAPUserServer.get_mailbox")
+    g = ctx.cfg(fi)
+    made = [n.id for n in g.nodes if n.ast is not None and n.kind == "stmt" and isinstance(n.ast, ast.Assign) and any(call_name(c) == "new" and "Mailbox" in norm(call_recv(c) or ast.Name("")) for c in calls_in(n.ast))]
+    pub = {n.id for n in g.nodes if n.ast is not None and n.kind == "stmt" and isinstance(n.ast, ast.Assign) and any(isinstance(t, ast.Subscript) and norm(t.value) == "self.active_mailboxes" for t in n.ast.targets)}
+    rel = [n.id for n in g.nodes if n.ast is not None and n.kind == "stmt" and any(call_name(c) == "set" and "event" in norm(call_recv(c) or ast.Name("")) for c in calls_in(n.ast))]
+    ctx.require(made and pub and rel, "get_mailbox: Mailbox.new / active_mailboxes[name] = mbox / event.set() not found")
+    w = None
+    for m_ in made:
+        for r_ in rel:
+            # the normal completion of Mailbox.new(): leave the node by its normal edge
+            starts = [e.dst for e in g.out[m_] if e.label in flow.NORMAL]
+            seen = flow.reach(g, starts, flow.NORMAL, avoid=lambda x: x in pub)
+            ctx.paths_explored += 1
+            if r_ in seen:
+                w = r_
+    if w is not None:
+        ctx.bad("R6.7", fi.module, fi.qual, "event.set() reachable before self.active_mailboxes[name] = mbox", "the sessions waiting for a mailbox's activation are released before the mailbox is in `active_mailboxes`: a waiter is told the mailbox cannot be activated, and the next caller activates the folder a second time - two Mailbox objects with separate queues for one folder, whose sessions are no longer serialised against each other", g.nodes[w].line)
+    else:
+        ctx.ok("R6.7", where(fi), "a freshly activated mailbox is published in active_mailboxes before the waiters on its activation event are released")
+
+
 def r6_9(ctx):
     """"...after all untagged data belonging to it": in each handler that produces untagged data, what the mailbox operation
     returned (SEARCH hits, FETCH items, STORE's flag lines, the STATUS values, the SELECT preamble, the LIST entries) flows
@@ -867,7 +914,11 @@ def run(ctx):
     ctx.do(r6_7)
     ctx.do(r6_8)
     ctx.do(r6_9)
+    ctx.do(r6_7b)
     ctx.do(r6_10)
+    ctx.do(r6_11)
+    from . import c07 as _c07
+    ctx.do(_c07.r7_8)  # one tagged reply per command: error texts cannot carry a line break into the reply
     from . import c01
     ctx.do(c01.r1_5)
     # R6.5 = C08 R8.1 (a non-BadCommand exception from parse() skips every reply path); admission relation and
